@@ -583,7 +583,8 @@ def r8(ctx):
          'before open does, however long that takes (violates "completes no later than t+T ... including calls issued before open")')
   n = 0
   for ev, ex in enum_paths(ctx, g):
-    park = [i for i, e in enumerate(ev) if e.kind == 'call' and call_attr(e.node) in ('ContinueWith', 'rawlink', 'Map') and '_open_ar' in U(e.node.func)]
+    park = [i for i, e in enumerate(ev) if e.kind == 'call' and call_attr(e.node) in ('ContinueWith', 'rawlink', 'Map')
+            and ('_open_ar' in U(e.node.func) or '_open_ar' in resolved_text(ev, i, e.node.func.value))]
     if not park:
       continue
     n += 1
